@@ -1,8 +1,8 @@
 package sess
 
 import (
-	"math"
 	"fmt"
+	"math"
 	"strconv"
 	"testing"
 
@@ -16,13 +16,14 @@ import (
 
 // HistKnobs steer the general history generator.
 type HistKnobs struct {
-	Role        string
-	NoGoodLogon bool // C07: never an acceptable Logon
-	EarlyLogon  int  // percent of histories that start with an acceptable Logon
-	Local       bool // local sends / logouts interleaved
-	LocalLogout bool // local Logout() / Stop() calls interleaved, but no local sends (C07: a Logout may go to a peer that has not logged on)
-	LongAdvance bool // allow idle stretches of minutes (only sensible while not logged on)
-	MaxSteps    int
+	Role             string
+	NoGoodLogon      bool // C07: never an acceptable Logon
+	EarlyLogon       int  // percent of histories that start with an acceptable Logon
+	Local            bool // local sends / logouts interleaved
+	LocalLogout      bool // local Logout() / Stop() calls interleaved, but no local sends (C07: a Logout may go to a peer that has not logged on)
+	LongAdvance      bool // allow idle stretches of minutes (only sensible while not logged on)
+	TailCounterFails bool // the history may end with: the counter store stops recording numbers, then further Logons
+	MaxSteps         int
 }
 
 var allHB = []string{"below", "min", "inside", "max", "above", "text", "absent"}
@@ -165,6 +166,14 @@ func genHistory(t *rapid.T, k HistKnobs) *Script {
 			add(rig.Step{Op: "advance", Dt: dt})
 		}
 	}
+	if k.TailCounterFails && g.logged && rapid.IntRange(0, 5).Draw(t, "tailCounterFails") == 0 {
+		// the counter store goes away (SetSeqNum fails from now on): a further Logon on the
+		// logged-on session is refused with its Reject all the same
+		add(rig.Step{Op: "counter-fails"})
+		for j := rapid.IntRange(1, 2).Draw(t, "tailLogons"); j > 0; j-- {
+			add(rig.Step{Op: "in", In: g.goodLogon(g.hb)})
+		}
+	}
 	sc.MaxHB = g.maxHB
 	if cfg.HBMax > sc.MaxHB {
 		sc.MaxHB = cfg.HBMax
@@ -247,7 +256,7 @@ func atoi(s string) int { n, _ := strconv.Atoi(s); return n }
 // ---------- C06 ----------
 
 func genC06(t *rapid.T) *Script {
-	return genHistory(t, HistKnobs{EarlyLogon: 35, Local: true, MaxSteps: 25})
+	return genHistory(t, HistKnobs{EarlyLogon: 35, Local: true, MaxSteps: 25, TailCounterFails: true})
 }
 
 func checkC06(sc *Script, rec *evid.Rec) (vs []pbt.Violation) {
@@ -263,6 +272,7 @@ func checkC06(sc *Script, rec *evid.Rec) (vs []pbt.Violation) {
 	state := "waiting" // model: waiting | logged | loggingout
 	abstract := cfg.Role
 	sawRefused, sawOK, sawWhileLogged := false, false, false
+	counterFailing := false
 	setupFresh, _ := ff.apply(tr.Setup)
 	if cfg.Role == "initiator" {
 		if len(setupFresh) == 0 || setupFresh[0].Type != rig.TLogon {
@@ -288,6 +298,13 @@ func checkC06(sc *Script, rec *evid.Rec) (vs []pbt.Violation) {
 		before := state
 		if res.RunEnded || !res.Delivered {
 			break // the handler stopped (outside this property)
+		}
+		if st.Op == "counter-fails" {
+			counterFailing = true
+			rec.Hist("counter-store-fails-before-a-further-logon")
+		}
+		if counterFailing && state != "logged" {
+			break // only "a further Logon on a logged-on session" is judged once the counter store has gone away
 		}
 		switch st.Op {
 		case "logout":
